@@ -165,12 +165,18 @@ func RunPaths(f *ssa.Function, start ssa.Instruction, init int, step PathStep, w
 // instruction for which isEvent holds (also as a deferred call).  Returns the
 // exits that can be reached without the event.
 func MustPass(f *ssa.Function, start ssa.Instruction, isEvent func(in ssa.Instruction) bool) []PathExit {
+	return MustPassF(f, start, isEvent, nil)
+}
+
+// MustPassF is MustPass with an edge-feasibility oracle.
+func MustPassF(f *ssa.Function, start ssa.Instruction, isEvent func(in ssa.Instruction) bool,
+	feasible func(state int, pred, succ *ssa.BasicBlock) bool) []PathExit {
 	exits := RunPaths(f, start, 0, func(st int, in ssa.Instruction, deferred bool) int {
 		if st == 0 && isEvent(in) {
 			return 1
 		}
 		return st
-	}, false, nil)
+	}, false, feasible)
 	var bad []PathExit
 	for _, e := range exits {
 		if e.State == 0 {
